@@ -90,9 +90,9 @@ Qed.
 Print Assumptions C03_alias_result_is_argument.
 
 (* alias graph, entry level *)
-Theorem C03_alias_values_add_diff : forall op swap h a l dn,
+Theorem C03_alias_values_add_diff : forall c op swap h a l dn,
   (l < length h)%nat -> nth_error h l = Some (ODict dn) ->
-  match values_combine op swap a (PRef l) h with
+  match values_combine c op swap a (PRef l) h with
   | Ret _ d => Forall (entry_spec_combine h dn) d       (* earned_premium: next's own object; else new *)
   | Raise _ _ => True
   end.
@@ -263,8 +263,8 @@ Print Assumptions C03_frame_entry_points_reachable.
 
 (* [post m h Q]: from the store h, m -- returning or raising -- leaves every object of h untouched, and a
    returned value satisfies the alias statement Q *)
-Theorem C03_frame_to_incremental : forall f is_inc cells h,
-  post (api_to_incremental f is_inc cells) h
+Theorem C03_frame_to_incremental : forall f c is_inc cells h,
+  post (api_to_incremental f c is_inc cells) h
        (fun r => if is_inc then r = cells                 (* already incremental: the argument itself *)
                  else Forall (fresh h) r).                (* every produced cell is a new object *)
 Proof. intros; apply sat_both, sat_api_to_incremental. Qed.
@@ -276,7 +276,7 @@ Proof. intros; apply sat_both, sat_api_to_cumulative. Qed.
 Theorem C03_frame_summarize : forall f c gcd_ok prem cells h,
   post (api_summarize f c gcd_ok prem cells) h (Forall (fresh h)).
 Proof. intros; apply sat_both, sat_api_summarize. Qed.
-Theorem C03_frame_blend_mixture : forall f tris picks h, post (api_blend f tris picks) h (Forall (fresh h)).
+Theorem C03_frame_blend_mixture : forall f c tris picks h, post (api_blend f c tris picks) h (Forall (fresh h)).
 Proof. intros; apply sat_both, sat_api_blend. Qed.
 Theorem C03_frame_select : forall cells ks h, post (api_select cells ks) h (Forall (fresh h)).
 Proof. intros; apply sat_both, sat_api_select. Qed.
